@@ -207,6 +207,18 @@ CHECKS = {
         "xlsx numbers carry 16 significant digits (openpyxl); tolerated as that format's text precision.",
         "DESIGN.md section 4 / C16",
     ),
+    "C20": (
+        "exploration",
+        "E1",
+        "exhaustive single-fault (and in-item double-fault) mutation of every reference position / referenced item / "
+        "parameter of base models covering all builtin item types; hand-written reference-position table as oracle",
+        "For every base model the clean model must validate, fill, evaluate and generate complete parameters; every "
+        "mutant with one dangling reference (each position misspelled, each referenced item removed, each parameter "
+        "removed) and pairs of faults inside one item must be reported - naming the label - without an internal error; "
+        "unique / exclusive / list-length rules are exercised in every megacomplex order.",
+        "Four base models; reference positions listed by hand (REFS).",
+        "DESIGN.md section 4 / C20",
+    ),
 }
 
 PENDING_REASON = "check under construction in this round - not claimed until its check runs clean on the unchanged tree"
@@ -247,7 +259,7 @@ def main():
             "add_only": True,
         },
         "engines": [
-            {"name": "E1", "path": "vf/core.py", "serves_properties": ["C01", "C02", "C03", "C04", "C05", "C06", "C07", "C08", "C09", "C11", "C13", "C14", "C16"], "kind_free_text": "bounded exhaustive input-space enumeration with reference oracles, 16 workers"},
+            {"name": "E1", "path": "vf/core.py", "serves_properties": ["C01", "C02", "C03", "C04", "C05", "C06", "C07", "C08", "C09", "C11", "C13", "C14", "C16", "C20"], "kind_free_text": "bounded exhaustive input-space enumeration with reference oracles, 16 workers"},
             {"name": "E2", "path": "vf/explore.py", "serves_properties": ["C10", "C12", "C19"], "kind_free_text": "explicit-state BFS over event histories replayed on fresh real objects, full-state digests"},
             {"name": "E3", "path": "vf/checks/c15.py", "serves_properties": ["C15"], "kind_free_text": "deviation-bounded fault enumerator (all single / pairs of deviations from the fault-free environment), forked watchdog"},
             {"name": "E5", "path": "vf/prange.py", "serves_properties": ["C10"], "kind_free_text": "partial-order (conflict relation) exploration of numba prange kernels on py_func with recording array proxies"},
